@@ -7,7 +7,12 @@
 export GOFLAGS=-mod=mod GOPROXY=off GOSUMDB=off GOTOOLCHAIN=local
 MODE="$1"; OUT="$2"; shift 2
 LANES=${LANES:-4}
-cd /verif
+# work from a snapshot of /verif, so that edits made to the harness while the lanes run do not reach them
+SNAP=/tmp/verif-snap.$$
+rm -rf $SNAP; mkdir -p $SNAP
+rsync -a --exclude .build --exclude .work --exclude replays --exclude .git --exclude evidence /verif/ $SNAP/
+export SNAP
+cd $SNAP
 mkdir -p /tmp/eqlogs
 for k in $(seq 1 $LANES); do
   git -C /repo worktree remove --force /tmp/mut/lane$k 2>/dev/null; rm -rf /tmp/mut/lane$k
@@ -58,3 +63,4 @@ for id in "$@"; do
 done | xargs -P $LANES -L 1 bash -c 'job "$0" "$1" "$2"'
 for k in $(seq 1 $LANES); do git -C /repo worktree remove --force /tmp/mut/lane$k 2>/dev/null; rmdir /tmp/mut/lane$k.lock 2>/dev/null; done
 git -C /repo worktree prune
+rm -rf $SNAP
